@@ -109,9 +109,18 @@ impl<T: Qcow2IoOps> Qcow2Dev<T> {
         {
             Some(to_kill) => {
                 log::warn!("add_l2_slice: cache eviction, slices {}", to_kill.len());
-                // figure exact dependency on refcount cache & reftable entries
-                self.flush_refcount().await?;
-                self.flush_cache_entries(to_kill).await
+                let evicted = to_kill.clone();
+                let res = async {
+                    // figure exact dependency on refcount cache & reftable entries
+                    self.flush_refcount().await?;
+                    self.flush_cache_entries(to_kill).await
+                }
+                .await;
+                if res.is_err() {
+                    // the evicted slices hold the only copy of their updates
+                    self.l2cache.put_back(evicted);
+                }
+                res
             }
             _ => Ok(()),
         }
